@@ -168,7 +168,7 @@ func cmdCheck(args []string) int {
 	if *tier == "thorough" {
 		timeout = 120
 	}
-	opts := VerifyOpts{Thorough: *tier == "thorough", Safety: cfg.Safety, Locks: cfg.Locks, TimeoutS: timeout, Seed: seed, Smoke: true,
+	opts := VerifyOpts{Thorough: *tier == "thorough", ThoroughProp: *prop, Safety: cfg.Safety, Locks: cfg.Locks, TimeoutS: timeout, Seed: seed, Smoke: true,
 		SafetyTags: []string{*prop}, LockTags: []string{*prop}}
 	// roots plus, transitively, every callee whose contract a proof assumed (no proof rests on an unproved contract)
 	var results []*FuncResult
